@@ -80,7 +80,15 @@ def _if(env, sheet, args):
     return v
 
 
-FUNCS = {'SUM': _sum, 'MAX': _max, 'MIN': _min, 'IF': _if}
+def _isnumber(env, sheet, args):
+    v = R.evaluate(args[0], env, sheet)
+    if v is R.UNDEF:
+        return v
+    return R.is_num(v)
+
+
+FUNCS = {'SUM': _sum, 'MAX': _max, 'MIN': _min, 'IF': _if,
+         'ISNUMBER': _isnumber}
 
 
 def _q(sheet, a1, from_sheet):
